@@ -408,6 +408,7 @@ def run_check(chk: Check, tier="quick", seed=0, replay=None):
 
     # 1. obligations -------------------------------------------------------
     axioms = {}
+    leanchecker = None
     build_ok = True
     if chk.LEAN_MODULE:
         ok, log = lean_build(chk.LEAN_MODULE, chk.TRANSLATE)
@@ -418,6 +419,12 @@ def run_check(chk: Check, tier="quick", seed=0, replay=None):
             axioms, probs = lean_audit(chk.LEAN_MODULE, chk.THEOREMS)
             for p in probs:
                 problems.append({"kind": "obligation", "what": p})
+            if tier == "thorough" and not replay:
+                # independent re-check of the compiled proofs by Lean's external checker
+                rc, out, err = sh(["lake", "env", "leanchecker", chk.LEAN_MODULE], cwd=LEAN_DIR, timeout=3600)
+                leanchecker = {"exit": rc, "output": (out + err)[-500:]}
+                if rc != 0:
+                    problems.append({"kind": "obligation", "what": f"leanchecker rejected {chk.LEAN_MODULE}", "log": (out + err)[-2000:]})
     obligations = len(chk.THEOREMS)
     discharged = len([t for t in chk.THEOREMS if t in axioms and set(axioms[t]) <= ALLOWED_AXIOMS]) if build_ok else 0
 
@@ -591,6 +598,7 @@ def run_check(chk: Check, tier="quick", seed=0, replay=None):
             "known_findings_hit": {k: len(v) for k, v in known_hits.items()},
             "broken": [p["what"] for p in problems][:10],
             "repo": REPO,
+            "leanchecker": leanchecker,
         },
         "assumptions": list(chk.ASSUMPTIONS),
         "wall_s": round(time.time() - t0, 2),
